@@ -15,8 +15,9 @@ THEOREMS = [
     "C03_no_threshold",
     "C03_stopIndex_spec",
     "C03_mstep_matches_moments",
+    "C03_iteration_relabel_equivariant",
 ]
-CORR_OPS = ["gmm_mstep_ml:fit1", "gmm_mstep_ml:m_step", "gmm_mstep_ml:moments", "em_stop:numpy", "em_stop:dask", "em_stop:refit"]
+CORR_OPS = ["gmm_mstep_ml:fit1", "gmm_mstep_ml:m_step", "gmm_mstep_ml:moments", "gmm_mstep_ml:relabel", "em_stop:numpy", "em_stop:dask", "em_stop:refit"]
 RULE = ("K: (machine, data or synthetic statistics, 8 switch combinations, count/variance floors sometimes active) -> one M-step; "
         "O: recorded criterion trajectories of real fits (NumPy and Dask) x thresholds (None, 0, exactly an observed relative change "
         "and its two float neighbours, values 1e-6 away) x iteration caps; distinct = hash of inputs; non-trivial = >= 2 components "
@@ -88,7 +89,7 @@ def corr_mstep(ctx, bad):
     from bob.learn.em import gmm as gmod
 
     n = ctx.budget(48, 480)
-    lines, meta = [], []
+    lines, meta, relabel_bad = [], [], []
     for i in range(n):
         sc = train_scenario(ctx, i)
         g0 = mk(sc, max_fitting_steps=1, convergence_threshold=None)
@@ -111,8 +112,18 @@ def corr_mstep(ctx, bad):
             res = core.impl(lambda: params_of(g0.fit(sc["x"])))
         else:
             res = core.impl(lambda: params_of(gmod.m_step([st], g0)[0]))
+        if mode == "fit1" and not isinstance(res, core.ImplError):
+            # C03_iteration_relabel_equivariant on the code: the same iteration started from the components in reverse order
+            sc2 = dict(sc, w=np.asarray(sc["w"])[::-1].copy(), m=np.asarray(sc["m"])[::-1].copy(), v=np.asarray(sc["v"])[::-1].copy())
+            g2 = mk(sc2, max_fitting_steps=1, convergence_threshold=None)
+            res2 = core.impl(lambda: params_of(g2.fit(sc["x"])))
+            ctx.count("relabel:fit1")
+            if isinstance(res2, core.ImplError) or not params_close({k: np.asarray(res2[k])[::-1] for k in ("w", "m", "v")}, res, 1e-7):
+                relabel_bad.append({"op": "gmm_mstep_ml:relabel", "input": {k: sc[k] for k in ("w", "m", "v", "x", "um", "uv", "uw", "thr", "floor")},
+                                    "impl": res, "impl_reversed_start": repr(res2) if isinstance(res2, core.ImplError) else res2})
         meta.append((sc, mode, res, st))
     outs = core.drive(lines)
+    bad.extend(relabel_bad)
     for (sc, mode, res, st), o in zip(meta, outs):
         model = {k: core.dec(o[k]) for k in ("w", "m", "v")}
         sw = f"um={int(sc['um'])},uv={int(sc['uv'])},uw={int(sc['uw'])}"
